@@ -88,6 +88,12 @@ Round 6 additions:
     the calculator module -> REFUTED (results keyed by task objects survive the call and go stale);
   * work term `max(estimate, spent)` -> REFUTED.
 
+Round 7 addition:
+  * C12.pure: an attribute store on an object whose package class overrides __setattr__ is a call of that method (sa.effects
+    sees a raw write to the freshly allocated receiver and drops it); `path.length = x` on an _ImmutableTaskList reaches
+    `t.__setattr__(key, value)` for every task of the list -> REFUTED; the guards of the __setattr__ body on the attribute name
+    (`key.startswith('_')`) are evaluated for the stored name, so `path._x = ..` stays on the list object.
+
 Not decided: exactness of the longest-path result as a number (magnitude of the tolerance - a constant above 1e-3 is
 reported UNDECIDED -, float rounding inside the folds), "never empty when the WBS has a leaf" (follows from the clauses,
 not checked on its own), acyclicity handling (the property quantifies over acyclic WBSs), the end_date != None mode
@@ -2707,6 +2713,50 @@ def _tolerance_test(t: ast.AST, pol: bool, lv: str):
 OWN_TASK_CLASSES = ('Task', 'WBS', '_ImmutableTaskList', '_TaskList', '_ChildrenList', '_PredecessorsList', '_SuccessorsList')
 
 
+def _setattr_stores(ctx, R: Roles, eff, o, funcs):
+    prog = ctx.prog
+    seen = set()
+    for f in funcs:
+        if f.qual in seen or not isinstance(f.node, (ast.FunctionDef, ast.AsyncFunctionDef)):
+            continue
+        seen.add(f.qual)
+        for n in walk_no_nested(f.node):
+            tgts, key = [], None
+            if isinstance(n, ast.Assign):
+                tgts = [t for t in n.targets if isinstance(t, ast.Attribute)]
+            elif isinstance(n, (ast.AugAssign, ast.AnnAssign)) and isinstance(n.target, ast.Attribute) and \
+                    (not isinstance(n, ast.AnnAssign) or n.value is not None):
+                tgts = [n.target]
+            for t in tgts:
+                rt = base(ctx.typer.expr_type(t.value, f))
+                if not rt or rt not in prog.classes:
+                    continue
+                sa_ = prog.find_method(rt, '__setattr__')
+                if sa_ is None or sa_.cls == f.cls and isinstance(t.value, ast.Name) and t.value.id == f.self_name:
+                    continue
+                key = unmangle(t.attr)
+                key_p = sa_.params[1] if len(sa_.params) > 1 else None
+                # which writes of the __setattr__ body can happen for this attribute name?
+                for w in eff.direct_writes(sa_):
+                    recv = getattr(w, 'recv', None)
+                    if isinstance(w.node, ast.Call) and isinstance(w.node.func, ast.Attribute) and isinstance(w.node.func.value, ast.Call) \
+                            and getattr(w.node.func.value.func, 'id', None) == 'super':
+                        continue                    # the plain store on the object itself
+                    taken = True
+                    for ct, cp in facts.node_conditions(prog, sa_, w.node, ctx.typer, expand=False):
+                        for a_, ap_ in facts.split_conj(ct, cp):
+                            m_ = match(f"{key_p}.startswith($c)", a_) if key_p else None
+                            if m_ and isinstance(m_['c'], ast.Constant) and isinstance(m_['c'].value, str):
+                                if key.startswith(m_['c'].value) != ap_:
+                                    taken = False
+                    if not taken:
+                        continue
+                    o.refute(f, n, t, f"`{src(n)[:60]}` stores an attribute on a {rt}, whose __setattr__ does not keep `{key}` on the list "
+                                      f"object but hands it on (`{src(w.node)[:50]}`): every task in the returned list - tasks of the WBS, "
+                                      f"not objects of this call - gets a `{key}` attribute")
+                    break
+
+
 def _pure(ctx, R: Roles, o):
     prog = ctx.prog
     eff = Effects(prog, ctx.typer, ctx.cg)
@@ -2721,6 +2771,9 @@ def _pure(ctx, R: Roles, o):
                  + ' -> '.join(chain[-3:]))
     if not ws:
         o.site(entry, entry.node, f"writes*(WBS.critical_path) = {{}} over {len(reach)} reachable functions")
+    # an attribute store on an object whose class overrides __setattr__ is a call of that method (sa.effects records a raw
+    # write to the - freshly allocated - receiver and drops it): `path.length = x` on an _ImmutableTaskList reaches the tasks
+    _setattr_stores(ctx, R, eff, o, [entry] + [f for f in reach if f.module is R.mod])
     # the result is computed from the current graph on every call: every return is <new calculator>.calc(), unconditionally
     ecfg = cfg_of(entry)
     exe = Expander(prog, entry, ctx.typer, inline=False)
